@@ -471,6 +471,58 @@ func main() {
 			}
 		}
 
+		// (m) many false candidates: the needle's first rune occurs 31..65 times
+		// (each time followed by a non-matching character) before a tail of 1..2
+		// runes of the orbit alphabet (a cut-over after a number of rejected
+		// windows would show here).
+		shm := sh()
+		tails := operands(foldOrbit16, 1, 2)
+		needles := operands(foldOrbit16, 2, 2)
+		needles = append(needles, operandOf("i"), operandOf("ix"), operandOf("I"), operandOf("\u0130"), operandOf("ss"), operandOf("\u00df"))
+		for _, n := range []int{31, 32, 33, 34, 64, 65} {
+			for j := range needles {
+				if !shm.Mine() {
+					continue
+				}
+
+				sub := &needles[j]
+				first := []rune(sub.str)[0]
+				pad := strings.Repeat(string(first)+"_", n)
+				for i := range tails {
+					h := operandOf(pad + tails[i].str)
+					c.Family("fold-many-candidates")
+					if oneFold(c, &h, sub) {
+						c.NontrivialInjective()
+					}
+				}
+			}
+		}
+
+		// (n) SplitTrimmed with many pieces (past any preallocation cap): 63..130
+		// separators, pieces all present, mostly empty, or blank.
+		shn := sh()
+		for _, n := range []int{15, 16, 17, 31, 32, 33, 62, 63, 64, 65, 66, 127, 128, 129, 130} {
+			for _, sep := range []string{",", ", ", ",,", "a", " "} {
+				if !shn.Mine() {
+					continue
+				}
+
+				inputs := []string{
+					strings.Repeat("p"+sep, n) + "q",
+					"a" + strings.Repeat(sep, n) + "b" + sep + " " + sep + "c",
+					strings.Repeat(" "+sep, n),
+					strings.Repeat(sep, n),
+					" " + strings.Repeat("x y"+sep+" ", n) + " ",
+				}
+				for _, in := range inputs {
+					c.Family("split-many-pieces")
+					if oneSplit(c, in, enum.Hex(in), sep) {
+						c.NontrivialKey("split\x00" + in + "\x00" + sep)
+					}
+				}
+			}
+		}
+
 		// (d) SplitTrimmed.
 		maxLen := runlib.Pick(c, 6, 7)
 		shd := sh()
